@@ -27,9 +27,9 @@ def _make_cond(q, ineq, value, phase, element):
     return cls[q](I, value, phase=phase)
 
 
-def _series(pd, q, pidx):
+def _series(pd, q, pidx, eidx=0):
     if q == "composition":
-        return np.asarray(pd.composition)[:, 0]
+        return np.asarray(pd.composition)[:, eidx]
     return np.asarray(getattr(pd, q))[:, pidx]
 
 
@@ -46,7 +46,9 @@ def _thresholds(sc, conds):
     out = []
     for c in conds:
         pidx = c["phase"] % len(names)
-        s = _series(pd, c["q"], pidx)
+        solutes = ["B"] if sc["system"] == "toy_bin" else list(sc.get("solutes", ["B", "C"]))
+        eidx = c.get("elem", 0) % len(solutes)
+        s = _series(pd, c["q"], pidx, eidx)
         n = len(s)
         if c["place"] == "never":
             v = (np.nanmax(s) * 2 + 1) if c["ineq"] == ">" else (np.nanmin(s) - abs(np.nanmin(s)) - 1)
@@ -57,7 +59,9 @@ def _thresholds(sc, conds):
             if c["place"] == "equal":
                 v = s[k]              # the threshold is bit-equal to a recorded value: both inequalities are strict
 
-        out.append({"q": c["q"], "ineq": c["ineq"], "value": float(v), "phase": names[pidx], "pidx": pidx, "mode": c["mode"]})
+        # the element of a composition condition: by name, or left to the default (first solute) when it is the first
+        ename = None if (eidx == 0 and c.get("elem_default", True)) else solutes[eidx]
+        out.append({"q": c["q"], "ineq": c["ineq"], "value": float(v), "phase": names[pidx], "pidx": pidx, "mode": c["mode"], "eidx": eidx, "element": ename})
     return out, res
 
 
@@ -71,7 +75,7 @@ def check_stop(case):
     model, therm = H.build_model(sc)
     objs = []
     for c in conds:
-        o = _make_cond(c["q"], c["ineq"], c["value"], c["phase"], None)
+        o = _make_cond(c["q"], c["ineq"], c["value"], c["phase"], c.get("element"))
         model.addStoppingCondition(o, c["mode"])
         objs.append(o)
     hist = []
@@ -98,7 +102,7 @@ def check_stop(case):
     # recompute satisfaction from the recorded history
     first = []
     for c in conds:
-        s = _series(pd, c["q"], c["pidx"])
+        s = _series(pd, c["q"], c["pidx"], c.get("eidx", 0))
         test = (s > c["value"]) if c["ineq"] == ">" else (s < c["value"])
         idx = [i for i in range(1, nrows) if test[i]]
         first.append(idx[0] if idx else None)
@@ -114,6 +118,8 @@ def check_stop(case):
     ncalls = len(sc["durations"])
     last = nrows - 1
     out.label("conds_%d" % len(conds), "met" if nstar is not None else "never_met")
+    if any(c["q"] == "composition" and c.get("eidx", 0) > 0 for c in conds):
+        out.label("composition_condition_on_second_solute")
     if res["truncated"]:
         out.label("truncated")
     rows = res["rows_after_call"]          # number of recorded rows after set-up and after every solve call
@@ -144,7 +150,7 @@ def check_stop(case):
             if not o.isSatisfied():
                 out.fail("not_latched", "condition %d (%s %s %r) was met at step %d but is not reported satisfied" % (j, c["q"], c["ineq"], c["value"], f))
                 continue
-            s = _series(pd, c["q"], c["pidx"])
+            s = _series(pd, c["q"], c["pidx"], c.get("eidx", 0))
             prev_test = (s[f - 1] > c["value"]) if c["ineq"] == ">" else (s[f - 1] < c["value"])
             st_ = o.satisfiedTime()
             if not prev_test and s[f] != s[f - 1]:
@@ -189,13 +195,13 @@ def check_ttp(case):
             sc2["T"] = ["const", T]
             sc2["cap"] = 10 ** 9
             m, th = H.build_model(sc2)
-            objs = [_make_cond(c["q"], c["ineq"], c["value"], c["phase"], None) for c in conds]
+            objs = [_make_cond(c["q"], c["ineq"], c["value"], c["phase"], c.get("element")) for c in conds]
             for o in objs:
                 m.addStoppingCondition(o, "and")
             m.solve(maxTime, solverType=H.StepTap(m, "rk4", cap=case["cap"]).inner)
             expect.append([o.satisfiedTime() for o in objs])
         m, th = H.build_model(sc)
-        objs = [_make_cond(c["q"], c["ineq"], c["value"], c["phase"], None) for c in conds]
+        objs = [_make_cond(c["q"], c["ineq"], c["value"], c["phase"], c.get("element")) for c in conds]
         calc = TTPCalculator(m, objs)
         calc.calculateTTP(case["temps"][0], case["temps"][-1], len(case["temps"]), maxTime)
     except H.StepCap:
@@ -225,12 +231,19 @@ def check_ttp(case):
 def _cond(draw):
     return {"q": draw(st.sampled_from(QUANT)), "ineq": draw(st.sampled_from([">", "<"])), "phase": draw(st.integers(0, 2)),
             "place": draw(st.sampled_from(["at", "at", "at", "at", "never", "never", "equal"])), "at": draw(st.floats(0.02, 1.0)), "frac": draw(st.floats(0.05, 0.95)),
-            "mode": draw(st.sampled_from(["or", "or", "and"]))}
+            "mode": draw(st.sampled_from(["or", "or", "and"])), "elem": draw(st.integers(0, 1)), "elem_default": draw(st.booleans())}
 
 
 @st.composite
 def _stop_case(draw):
-    sc = draw(scen.toy_binary_scenario(cap=250, max_phases=2, undersat=False))
+    if draw(st.integers(0, 3)) == 3:
+        # two solutes: a composition condition names its element
+        sc = draw(scen.toy_multi_scenario(cap=200, max_phases=2))
+        conds = draw(st.lists(_cond(), min_size=0, max_size=3))
+        conds.append(dict(draw(_cond()), q="composition", elem=draw(st.sampled_from([1, 1, 0])), elem_default=draw(st.booleans())))
+        return {"sc": sc, "conds": conds}
+    else:
+        sc = draw(scen.toy_binary_scenario(cap=250, max_phases=2, undersat=False))
     return {"sc": sc, "conds": draw(st.lists(_cond(), min_size=1, max_size=4))}
 
 
@@ -252,7 +265,7 @@ def _ttp_case(draw):
 def clauses():
     return [
         Clause("stop", _stop_case, check_stop, quick=150, thorough=3000, shrink=False,
-               rule="generator: toy binary scenario (1-2 phases) x 1-4 conditions over {volume fraction, mean radius, driving force, nucleation rate, density, composition} x {>,<} x phase x 'or'/'and', thresholds placed between two recorded values of a dry run (early/late), exactly on a recorded value, or out of range (never); "
+               rule="generator: toy binary (3 in 4) or toy ternary scenario (1-2 phases) x 1-4 conditions over {volume fraction, mean radius, driving force, nucleation rate, density, composition} x {>,<} x phase / element (by name or default) x 'or'/'and', thresholds placed between two recorded values of a dry run (early/late), exactly on a recorded value, or out of range (never); "
                     "oracle recomputed from the recorded history: stop step, end time, latching, crossing time inside the step and linearly interpolated; non-trivial: conditions first met strictly inside the run (step > 1)"),
         Clause("ttp", _ttp_case, check_ttp, quick=24, thorough=400, shrink=False,
                rule="generator: isothermal toy binary scenario x 1-3 'and' conditions x 2-3 temperatures; TTP calculator entries vs independent runs with the same conditions (-1 when never met); non-trivial: some time reported and (a -1 entry or several conditions)"),
